@@ -485,6 +485,16 @@ def _score(case):
     def seq():
         return data.Sequence(uuid=U(0xA0), sound_events=[_se(4)])
 
+    sides = case.get("sides", "both")       # which sides the match carrying the number has
+
+    def ends(conv):
+        d = {}
+        if sides in ("both", "source"):
+            d["source"] = conv(_pred(1))
+        if sides in ("both", "target"):
+            d["target"] = conv(_ann(1))
+        return d
+
     # ---- constructors
     def ctor():
         if field == "PredictedTag.score":
@@ -494,9 +504,9 @@ def _score(case):
         if field == "SequencePrediction.score":
             return [data.SequencePrediction(sequence=seq(), **kw("score")).score]
         if field == "Match.affinity":
-            return [data.Match(source=_pred(1), target=_ann(1), **kw("affinity")).affinity]
+            return [data.Match(**ends(lambda o: o), **kw("affinity")).affinity]
         if field == "Match.score":
-            return [data.Match(source=_pred(1), target=_ann(1), affinity=0.5, **kw("score")).score]
+            return [data.Match(**ends(lambda o: o), affinity=0.5, **kw("score")).score]
         if field == "ClipEvaluation.score":
             a = _clip(0x10)
             return [data.ClipEvaluation(annotations=data.ClipAnnotation(clip=a), predictions=data.ClipPrediction(clip=a),
@@ -515,9 +525,9 @@ def _score(case):
         if field == "SequencePrediction.score":
             return data.SequencePrediction, dict({"sequence": dump(seq())}, **kw("score")), "score"
         if field == "Match.affinity":
-            return data.Match, dict({"source": dump(_pred(1)), "target": dump(_ann(1))}, **kw("affinity")), "affinity"
+            return data.Match, dict(ends(dump), **kw("affinity")), "affinity"
         if field == "Match.score":
-            return data.Match, dict({"source": dump(_pred(1)), "target": dump(_ann(1)), "affinity": 0.5}, **kw("score")), "score"
+            return data.Match, dict(ends(dump), affinity=0.5, **kw("score")), "score"
         if field == "ClipEvaluation.score":
             a = _clip(0x10)
             return (data.ClipEvaluation,
@@ -554,13 +564,16 @@ def _score(case):
                "sequences": [{"uuid": str(U(0xA0)), "sound_events": [str(U(SE_ID + 4))]}],
                "sound_event_annotations": [{"uuid": str(U(ANN_ID + 1)), "sound_event": str(U(SE_ID + 1)), "created_on": T0S}],
                "clip_annotations": [{"uuid": str(U(0x60)), "clip": str(U(0x10)), "created_on": T0S,
-                                     "sound_events": [str(U(ANN_ID + 1))]}],
+                                     "sound_events": [str(U(ANN_ID + 1))] if sides in ("both", "target") else []}],
                "sound_event_predictions": [sep],
                "sequence_predictions": [dict({"uuid": str(U(0xA1)), "sequence": str(U(0xA0))},
                                              **put("score", "SequencePrediction.score", 0.5))],
-               "clip_predictions": [{"uuid": str(U(0x61)), "clip": str(U(0x10)), "sound_events": [str(U(PRED_ID + 1))],
+               "clip_predictions": [{"uuid": str(U(0x61)), "clip": str(U(0x10)),
+                                     "sound_events": [str(U(PRED_ID + 1))] if sides in ("both", "source") else [],
                                      "sequences": [str(U(0xA1))]}],
-               "matches": [dict({"uuid": str(U(MATCH_ID)), "source": str(U(PRED_ID + 1)), "target": str(U(ANN_ID + 1))},
+               "matches": [dict({"uuid": str(U(MATCH_ID))},
+                                **({"source": str(U(PRED_ID + 1))} if sides in ("both", "source") else {}),
+                                **({"target": str(U(ANN_ID + 1))} if sides in ("both", "target") else {}),
                                 **put("affinity", "Match.affinity", 0.5), **put("score", "Match.score", None))],
                "clip_evaluations": [dict({"uuid": str(U(0x70)), "annotations": str(U(0x60)), "predictions": str(U(0x61)),
                                           "matches": [str(U(MATCH_ID))]}, **put("score", "ClipEvaluation.score", None))]}
@@ -661,7 +674,8 @@ OPT_CASES = [     # one valid and one invalid case per condition of the statemen
     {"kind": "clip", "st": 5, "en": 10, "u": 1, "enc": "str", "mp": "dict", "opt": 1},
     {"kind": "clip", "st": 10, "en": 9, "u": 1, "enc": "num", "mp": "dict", "opt": 1},
 ] + [{"kind": "score", "field": f, "v": v, "enc": "num", "opt": 1}
-     for f in FIELDS[:6] for v in ("half", "1+eps")]
+     for f in FIELDS[:6] for v in ("half", "1+eps")] + [
+    {"kind": "score", "field": "Match.affinity", "v": "1+eps", "enc": "num", "sides": "source", "opt": 1}]
 
 
 def _execute_all(cases):
@@ -723,7 +737,7 @@ MANIFEST = {
              "span (not the same clip), and projects whose tasks and clip annotations are listed in every order with "
              "clips annotated twice -- and path (the as-found before-mode clip "
              "validator, a validator keyed on the wrapped sound event, a merged uuid pool, a multiset (Counter) comparison, deep clip equality, a same-span "
-             "fall-through, a single-pass (generator) task lookup, a dict-only null-match test and an assert under -O are kept as controls with TLC's counterexamples); "
+             "fall-through, a single-pass (generator) task lookup, a dict-only null-match test, an assert under -O and an AOEF loader resetting one-sided affinities are kept as controls with TLC's counterexamples); "
              "every case is then built through the constructor, model_validate, model_validate_json (numbers also as numeric "
              "strings) and a hand-written AOEF document loaded with io.load, and TLC validates ConstructIffValid, PathsAgree "
              "and StoredWithinBounds on what was built and stored; the dict path is also fed with other Mapping types and a "
